@@ -34,7 +34,7 @@ func All(o Opts, emit Emit) {
 		n++
 		return emit(f, fmt.Sprintf("%s/%d", f, n), x)
 	}
-	fams := []func(Opts, func(string, *ex.E) bool) bool{F1, F2, F3, F4, F5, F6, F7, F8, F9, F10, F11, F2s}
+	fams := []func(Opts, func(string, *ex.E) bool) bool{F1, F2, F3, F4, F5, F6, F7, F8, F9, F10, F11, F2s, F3s}
 	for _, f := range fams {
 		if !f(o, e) {
 			return
@@ -101,6 +101,32 @@ func F3(o Opts, emit func(string, *ex.E) bool) bool {
 				if !emit("F3-conditional", ex.Cond(p, a, b)) {
 					return false
 				}
+			}
+		}
+	}
+	return true
+}
+
+// F3s: conditional whose results are a tuple constructor (with equal or convertible-to-equal
+// elements) and a collection variable, so that the result is converted to a set / list / map.
+func F3s(o Opts, emit func(string, *ex.E) bool) bool {
+	tuples := []*ex.E{
+		ex.Tuple(ex.Var("sa"), ex.Var("sa")), ex.Tuple(ex.Var("sa"), ex.Var("s1")), ex.Tuple(ex.Str("1"), ex.Num("1")), ex.Tuple(ex.Var("sa")),
+		ex.Tuple(ex.Var("one"), ex.Var("two")), ex.Tuple(ex.Var("one"), ex.Var("one"), ex.Var("two")), ex.Tuple(),
+	}
+	colls := []*ex.E{ex.Var("ss"), ex.Var("ls"), ex.Var("ln"), ex.Var("sn")}
+	objs := []*ex.E{ex.Obj(ex.IdItem("a", ex.Var("one"))), ex.Obj(ex.IdItem("a", ex.Var("one")), ex.IdItem("b", ex.Var("two")))}
+	for _, p := range []*ex.E{ex.Var("bt"), ex.Var("bf")} {
+		for _, c := range colls {
+			for _, t := range tuples {
+				if !emit("F3-conditional", ex.Cond(p, t, c)) || !emit("F3-conditional", ex.Cond(p, c, t)) {
+					return false
+				}
+			}
+		}
+		for _, ob := range objs {
+			if !emit("F3-conditional", ex.Cond(p, ob, ex.Var("mn"))) || !emit("F3-conditional", ex.Cond(p, ex.Var("mn"), ob)) {
+				return false
 			}
 		}
 	}
@@ -491,6 +517,9 @@ func partAlphabet(o Opts) (lits []ex.Part, seqs []ex.Part) {
 		ex.Part{K: "if", E: ex.Var("bt"), Then: []ex.Part{ex.Interp(ex.Var("sa"))}, HasElse: true, Else: []ex.Part{ex.Interp(ex.Var("ln"))}, Strip: [][2]bool{{}, {}, {}}},
 		ex.Part{K: "if", E: ex.Var("bt"), Then: []ex.Part{ex.Interp(ex.Var("one"))}, Strip: [][2]bool{{}, {}, {}}},
 		ex.Part{K: "for", E: ex.Var("t"), ValVar: "v", Then: []ex.Part{ex.Interp(ex.Var("v"))}, Strip: [][2]bool{{}, {}}},
+		// iterations that may render nothing at all
+		ex.Part{K: "for", E: ex.Var("ls"), ValVar: "v", Then: []ex.Part{ex.Interp(ex.Var("v"))}, Strip: [][2]bool{{}, {}}},
+		ex.Part{K: "for", E: ex.Var("lo"), ValVar: "v", Then: []ex.Part{ex.Part{K: "if", E: ex.Bin(">", ex.Attr(ex.Var("v"), "a"), ex.Num("1")), Then: []ex.Part{ex.Lit("+")}, Strip: [][2]bool{{}, {}, {}}}}, Strip: [][2]bool{{}, {}}},
 	)
 	return
 }
